@@ -135,6 +135,32 @@ func CheckRequestPlacement(d *spec.Design, s *spec.Service, m *spec.Method, payl
 		wantQ[key] = true
 		v := obj[attr]
 		f := pt.Field(attr)
+		if mv, ok := v.(*gen.MapVal); ok && f != nil {
+			// a map travels as key[k]=v, one pair per element value
+			et := d.Resolve(d.Resolve(f.Type).Elem.Type)
+			for i, k := range mv.K {
+				wk := fmt.Sprintf("%s[%v]", key, k)
+				wantQ[wk] = true
+				got := q[wk]
+				if arr, isArr := mv.V[i].([]any); isArr {
+					if len(got) != len(arr) {
+						errs = append(errs, fmt.Sprintf("query key %q occurs %d times for %d array elements", wk, len(got), len(arr)))
+						continue
+					}
+					for j := range arr {
+						if !textEq(d.Resolve(et.Elem.Type).Kind, got[j], arr[j]) {
+							errs = append(errs, fmt.Sprintf("query key %q element %d: wire %q, value %s", wk, j, got[j], gen.Show(arr[j])))
+						}
+					}
+				} else if len(got) != 1 || !textEq(et.Kind, got[0], mv.V[i]) {
+					errs = append(errs, fmt.Sprintf("query key %q: wire %q, value %s", wk, got, gen.Show(mv.V[i])))
+				}
+			}
+			if _, bare := q[key]; bare {
+				errs = append(errs, fmt.Sprintf("query key %q sent bare for the map attribute %s", key, attr))
+			}
+			continue
+		}
 		got, present := q[key]
 		switch {
 		case v == nil || isEmptyArr(v):
